@@ -952,7 +952,10 @@ Section Pending.
             (forall g, fs_find (r_fs s) j (cf_name f) = Some g -> cut_cond s j f g = false) ->
             fl_fixed (get_fl (r_flags s) (j, cf_name f)) = false -> dam s j f = false ->
             fs_find (r_fs s') j (cf_name f) = fs_find (r_fs s) j (cf_name f)
-            /\ fl_fixed (get_fl (r_flags s') (j, cf_name f)) = false /\ dam s' j f = false).
+            /\ fl_fixed (get_fl (r_flags s') (j, cf_name f)) = false /\ dam s' j f = false)
+      (* a file flagged DAMAGED is reported (status:unrecoverable) and renamed away at its last block *)
+      /\ (forall j f idx b, slot_of c pos j = SFile f idx b -> dam s' j f = true -> S idx = length (cf_blocks f) ->
+            fs_find (r_fs s') j (cf_name f) = None /\ In (K_ST_UNREC, [N.of_nat j; cf_name f]) (r_tags s')).
     Proof.
       pose proof (data_phase_P o c pos s Hplain Hfix Hlenfs) as DP.
       set (a := data_phase o c pos s) in *.
@@ -1107,7 +1110,11 @@ Section Pending.
       assert (Hnt_other : forall j n, (forall f idx b, slot_of c pos j = SFile f idx b -> cf_name f <> n) -> not_target failed' (j, n)).
       { intros j n Hno e' f0 i0 He' Hb' Hf' X. injection X as X1 X2. destruct (Hbadent e' He' Hb') as [f1 [idx1 [b1 [Es1 [Ef1 _]]]]].
         rewrite Hf' in Ef1. injection Ef1 as Y1 Y2. subst f1 idx1. rewrite <- X1 in Es1. apply (Hno f0 i0 b1 Es1). symmetry. exact X2. }
-      split; [congruence|]. split; [|split; [|split; [|split; [|split; [|split; [|split]]]]]].
+      split; [congruence|]. split; [|split; [|split; [|split; [|split; [|split; [|split; [|split]]]]]]].
+      9: { intros j f idx b Es Hd Hl.
+           assert (Hjn : In j (seq 0 (length (c_disks c)))) by (apply in_seq; pose proof (slot_lt c pos j f idx b Es); lia).
+           destruct (P7 j f idx b Hjn Es) as [Pd _]. destruct (P3 (j, cf_name f)) as [Yd _]. rewrite Yd in Hd.
+           destruct (Pd Hd) as [Pd1 _]. apply (Pd1 Hl). }
       7: { intros j n Hno. destruct (U7 (j, n) (Hnt_other j n Hno)) as [X1 X2]. destruct (P3 (j, n)) as [Y1 [Y2 _]].
            rewrite Y1, Y2, X1, X2, (Doth (j, n) Hno). split; reflexivity. }
       7: { intros j f idx b Es Hrd Hnc Hfx Hdm.
@@ -1210,6 +1217,9 @@ Section Pending.
                                /\ (fb_state b <> SChg -> hash_ok hashf bs f i b x = true);
       (* nothing counted unrecoverable: no file flagged DAMAGED *)
       rp_clean : r_unrec s = 0 -> forall key, fl_damaged (get_fl (r_flags s) key) = false;
+      (* a file flagged DAMAGED whose last block is passed: reported unrecoverable and renamed away *)
+      rp_gone : forall p j f i b, slot_of c p j = SFile f i b -> p < k -> S i = length (cf_blocks f) -> dam s j f = true ->
+                  fs_find (r_fs s) j (cf_name f) = None /\ In (K_ST_UNREC, [N.of_nat j; cf_name f]) (r_tags s);
       (* an intact file is not touched *)
       rp_intact : forall p j f i b, slot_of c p j = SFile f i b -> intactP k j f ->
                     fs_find (r_fs s) j (cf_name f) = fs_find fs0 j (cf_name f)
@@ -1229,8 +1239,10 @@ Section Pending.
            - intros p j f i b Hs Hp. destruct (Nat.eq_dec p k) as [E|E]; [subst p; exfalso; apply (Hno j f i b Hs)|].
              apply (rp_done k s I p j f i b Hs ltac:(lia)).
            - apply (rp_clean k s I).
+           - intros p j f i b Hs Hp. destruct (Nat.eq_dec p k) as [E|E]; [subst p; exfalso; apply (Hno j f i b Hs)|].
+             apply (rp_gone k s I p j f i b Hs). lia.
            - intros p j f i b Hs [Hi1 Hi2]. apply (rp_intact k s I p j f i b Hs). split; [exact Hi1 | intros p' i' b' Hp'; apply Hi2; lia]. }
-      destruct (fix_step_pending_full o c fs0 k s Hplain Hfix (rp_len k s I)) as [K1 [K2 [K3 [[K4a K4b] [_ [_ [_ [K8 K9]]]]]]]].
+      destruct (fix_step_pending_full o c fs0 k s Hplain Hfix (rp_len k s I)) as [K1 [K2 [K3 [[K4a K4b] [_ [_ [_ [K8 [K9 K10]]]]]]]]].
       pose proof (stripe_step_dam_mono false o c k fs0 s) as Kd.
       set (s' := stripe_step o c fs0 s k) in *.
       (* the block i of the file of a slot (p, j, f, i, b) with p <> k: untouched, or the file is flagged *)
@@ -1275,6 +1287,24 @@ Section Pending.
         + destruct (rp_done k s I p j f i b Hs ltac:(lia)) as [X|X]; [left; apply Kd; exact X|].
           destruct (Hfr p j f i b Hs E) as [Y|[Y _]]; [|left; exact Y]. right. rewrite Y. exact X.
       - intros Hu key. assert (Hu0 : r_unrec s = 0) by lia. rewrite (K4b ltac:(lia) key). apply (rp_clean k s I Hu0).
+      - (* flagged files are reported and renamed away at their last block *)
+        intros p j f i b Hs Hp Hl Hd.
+        pose proof (stripe_step_Rt hashf padz truncf bs nlev false newino now o c k fs0 s) as Mono. fold s' in Mono.
+        assert (Hoth : (forall f' i' b', slot_of c k j = SFile f' i' b' -> cf_name f' <> cf_name f) -> p <> k ->
+                       fs_find (r_fs s') j (cf_name f) = None /\ In (K_ST_UNREC, [N.of_nat j; cf_name f]) (r_tags s')).
+        { intros Hno Hpk. destruct (K8 j (cf_name f) Hno) as [_ X2]. rewrite X2 in Hd.
+          destruct (rp_gone k s I p j f i b Hs ltac:(lia) Hl Hd) as [Y1 Y2]. rewrite (K2 j (cf_name f) Hno). split; [exact Y1 | apply Mono; exact Y2]. }
+        destruct (slot_of c k j) as [|fk ik bk|h] eqn:Ek.
+        + apply Hoth; [intros f' i' b' X; discriminate X | intro X; subst p; rewrite Ek in Hs; discriminate Hs].
+        + destruct (N.eq_dec (cf_name fk) (cf_name f)) as [En|En].
+          * destruct (g_same bs c bm Hgeom k p j fk ik bk f i b Ek Hs En) as [Ef _]. subst fk.
+            destruct (g_same bs c bm Hgeom p k j f i b f ik bk Hs Ek eq_refl) as [_ H2].
+            destruct (Nat.eq_dec p k) as [Epk|Epk].
+            -- subst p. rewrite Ek in Hs. injection Hs as Hi Hb. subst ik bk. apply (K10 j f i b); [rewrite Ek; reflexivity | exact Hd | exact Hl].
+            -- exfalso. pose proof (g_idx bs c bm Hgeom k j f ik bk Ek). specialize (H2 ltac:(lia)). lia.
+          * apply Hoth; [intros f' i' b' X; injection X as X1 X2 X3; subst f'; exact En|].
+            intro X. subst p. rewrite Ek in Hs. injection Hs as X1 X2 X3. subst fk. apply En. reflexivity.
+        + apply Hoth; [intros f' i' b' X; discriminate X | intro X; subst p; rewrite Ek in Hs; discriminate Hs].
       - intros p j f i b Hs [Hi1 Hi2].
         destruct (rp_intact k s I p j f i b Hs) as [R1 [R2 R3]]; [split; [exact Hi1 | intros p' i' b' Hp'; apply Hi2; lia]|].
         assert (Hoth : (forall f' i' b', slot_of c k j = SFile f' i' b' -> cf_name f' <> cf_name f) ->
@@ -1324,6 +1354,7 @@ Section Pending.
       assert (Hob : In ob objs) by (apply Hin; left; reflexivity).
       destruct (obj_step_frame newino now o c Hfix s ob) as [_ [F2 [F3 [F4 _]]]].
       pose proof (obj_step_unrec_le newino now o c s ob) as F5.
+      pose proof (obj_step_Rt newino now o c s ob) as F6.
       set (s1 := obj_step newino now o c s ob) in *.
       assert (Efs : forall p j f i b, slot_of c p j = SFile f i b -> fs_find (r_fs s1) j (cf_name f) = fs_find (r_fs s) j (cf_name f)).
       { intros p j f i b Hs. apply F4. intro X. injection X as X1 X2. subst j. apply (Hobj_names ob p f i b Hob Hs). exact X2. }
@@ -1333,6 +1364,8 @@ Section Pending.
         - intros p j f i b Hs. unfold fblk. rewrite (Efs p j f i b Hs). apply (rp_later bm s I p j f i b Hs).
         - intros p j f i b Hs. unfold fblk. rewrite F2, (Efs p j f i b Hs). apply (rp_done bm s I p j f i b Hs).
         - intro Hu. rewrite F2. apply (rp_clean bm s I). lia.
+        - intros p j f i b Hs Hp Hl Hd. rewrite F2 in Hd. rewrite (Efs p j f i b Hs).
+          destruct (rp_gone bm s I p j f i b Hs Hp Hl Hd) as [Y1 Y2]. split; [exact Y1 | apply F6; exact Y2].
         - intros p j f i b Hs. rewrite F2, (Efs p j f i b Hs). apply (rp_intact bm s I p j f i b Hs). }
       destruct (IH s1 (fun x Hx => Hin x (or_intror Hx)) I1) as [I2 E2]. split; [exact I2 | congruence].
     Qed.
@@ -1378,6 +1411,20 @@ Section Pending.
         { intro X. rewrite (rp_clean bm _ I X key) in Hd. discriminate Hd. }
         split; [exact Hu | apply Hst; exact Hu].
       - intros p j f i b Hs. apply (rp_done bm _ I p j f i b Hs (g_bm bs c bm Hgeom p j f i b Hs)).
+    Qed.
+
+    (* a file flagged DAMAGED: status:unrecoverable in the log, renamed away, counted, failing exit status *)
+    Theorem fix_run_damaged_reported :
+      let out := check_run hashf padz truncf bs nlev false newino now o c par fs0 objs (seq 0 bm) in
+      forall p j f i b, slot_of c p j = SFile f i b -> dam (out_st out) j f = true ->
+        fs_find (r_fs (out_st out)) j (cf_name f) = None /\ In (K_ST_UNREC, [N.of_nat j; cf_name f]) (r_tags (out_st out))
+        /\ r_unrec (out_st out) <> 0 /\ out_fail out = true.
+    Proof.
+      cbn zeta. intros p j f i b Hs Hd. destruct fix_run_rinvP as [I _]. cbn zeta in I.
+      destruct fix_run_chg_pending as [_ [Hc _]]. cbn zeta in Hc.
+      destruct (g_last bs c bm Hgeom p j f i b Hs) as [pl [il [bl [Hsl [Hll _]]]]].
+      destruct (rp_gone bm _ I pl j f il bl Hsl (g_bm bs c bm Hgeom pl j f il bl Hsl) Hll Hd) as [X1 X2].
+      destruct (Hc _ Hd) as [X3 X4]. auto.
     Qed.
 
     (* a file that was intact in the damaged array -- not larger than recorded, every mapped block readable and, when it has a
@@ -1673,6 +1720,17 @@ Definition intact_pending (hashf : bid -> N -> hval) (bs : N) (c : content) (fs 
   /\ forall p i b, slot_of c p j = SFile f i b ->
        exists y, read_block bs (st0 fs par) j f i = Some y /\ (fb_state b <> SChg -> hash_ok hashf bs f i b y = true).
 
+(* the recorded block rb p j of every block WITH a recorded hash (BLK: the hash sync took of the block it protected; REP: the hash
+   inherited from the file the block was copied from), and collision freedom of the hash AT the recorded hashes: a block that hashes
+   (over the length of the block) to the recorded hash of the slot IS the recorded block.  (RunProofs.v asks the same of the damaged
+   blocks of a synced array through cf_search, which quantifies over every file system; here an undamaged block is also concluded to
+   be the recorded block, so it is asked of every BLK / REP slot.)  The recorded blocks are zero padded. *)
+Record collision_free_blk (hashf : bid -> N -> hval) (padz : bid -> N -> bool) (bs : N) (c : content) (bm : nat) (rb : nat -> nat -> bid) : Prop := {
+  cb_rec : forall p j f i b, p < bm -> slot_of c p j = SFile f i b -> fb_state b <> SChg -> hash_ok hashf bs f i b (rb p j) = true;
+  cb_inj : forall p j f i b x, p < bm -> slot_of c p j = SFile f i b -> fb_state b <> SChg -> hash_ok hashf bs f i b x = true -> x = rb p j;
+  cb_pad : forall p j f i b, p < bm -> slot_of c p j = SFile f i b -> fb_state b <> SChg -> pad_ok padz bs (rb p j) (block_len bs (cf_size f) i) = true
+}.
+
 Section StatementsP.
   Variable hashf : bid -> N -> hval.
   Variable padz : bid -> N -> bool.
@@ -1768,6 +1826,68 @@ Section StatementsP.
   Proof.
     intros Hp Hf Hg Hbm Hl Hpl [O1 _].
     exact (fix_run_blk_verified hashf padz truncf bs nlev newino now o c bm fs par Hp Hf Hg Hl Hpl objs O1 Hbm).
+  Qed.
+
+  Theorem run_fix_damaged_reported o c bm fs par objs :
+    plain nlev o -> co_fix o = true -> geom bs c bm -> c_blockmax c = bm ->
+    length fs = length (c_disks c) -> nlev <= length par -> objs_ok c objs ->
+    let out := check_run o c par fs objs (seq 0 bm) in
+    forall p j f i b, slot_of c p j = SFile f i b -> fl_damaged (get_fl (r_flags (out_st out)) (j, cf_name f)) = true ->
+      fs_find (r_fs (out_st out)) j (cf_name f) = None /\ In (K_ST_UNREC, [N.of_nat j; cf_name f]) (r_tags (out_st out))
+      /\ r_unrec (out_st out) <> 0 /\ out_fail out = true.
+  Proof.
+    intros Hp Hf Hg Hbm Hl Hpl [O1 _].
+    exact (fix_run_damaged_reported hashf padz truncf bs nlev newino now o c bm fs par Hp Hf Hg Hl Hpl objs O1 Hbm).
+  Qed.
+
+  (* every block with a recorded hash, in ANY stripe: in a file flagged DAMAGED, or exactly the recorded block *)
+  Theorem run_fix_blk_exact o c bm fs par objs rb :
+    plain nlev o -> co_fix o = true -> geom bs c bm -> c_blockmax c = bm ->
+    length fs = length (c_disks c) -> nlev <= length par -> objs_ok c objs ->
+    collision_free_blk hashf padz bs c bm rb ->
+    let out := check_run o c par fs objs (seq 0 bm) in
+    forall p j f i b, slot_of c p j = SFile f i b -> fb_state b <> SChg ->
+      fl_damaged (get_fl (r_flags (out_st out)) (j, cf_name f)) = true
+      \/ fblk (r_fs (out_st out)) j (cf_name f) i = rb p j.
+  Proof.
+    intros Hp Hf Hg Hbm Hl Hpl Ho [C1 C2 C3]. cbn zeta. intros p j f i b Hs Hnc.
+    assert (Hpb : p < bm) by (apply (g_bm bs c bm Hg p j f i b Hs)).
+    destruct (run_fix_blk_verified o c bm fs par objs Hp Hf Hg Hbm Hl Hpl Ho p j f i b Hs Hnc) as [X|[x [Hx Hh]]]; [left; exact X | right].
+    pose proof (C2 p j f i b x Hpb Hs Hnc Hh) as Ex. subst x.
+    destruct Hx as [Hx|Hx]; [exact Hx|]. rewrite Hx. unfold wbv. rewrite (C3 p j f i b Hpb Hs Hnc). reflexivity.
+  Qed.
+
+  (* C05 on the model, full hash size, arrays with pending changes: every file recorded in the content file is, at the end of fix,
+     either reported unrecoverable (flag, status line, renamed away, counted, failing exit status) or left under its name with:
+     at every block with a recorded hash exactly the recorded block, at every CHG block the block of the disk or a rebuilt block
+     that is not the stale old block the parity encoded *)
+  Theorem run_fix_never_wrong o c bm fs par objs rb :
+    plain nlev o -> co_fix o = true -> geom bs c bm -> c_blockmax c = bm ->
+    length fs = length (c_disks c) -> nlev <= length par -> objs_ok c objs ->
+    PastHashInvAll hashf padz bs c par -> collision_free_blk hashf padz bs c bm rb ->
+    let out := check_run o c par fs objs (seq 0 bm) in
+    (out_fail out = true <-> r_unrec (out_st out) <> 0)
+    /\ forall p j f i b, slot_of c p j = SFile f i b ->
+         (fl_damaged (get_fl (r_flags (out_st out)) (j, cf_name f)) = true
+          /\ fs_find (r_fs (out_st out)) j (cf_name f) = None /\ In (K_ST_UNREC, [N.of_nat j; cf_name f]) (r_tags (out_st out))
+          /\ r_unrec (out_st out) <> 0 /\ out_fail out = true)
+         \/ (fl_damaged (get_fl (r_flags (out_st out)) (j, cf_name f)) = false
+             /\ (fb_state b <> SChg -> fblk (r_fs (out_st out)) j (cf_name f) i = rb p j)
+             /\ (fb_state b = SChg ->
+                   fblk (r_fs (out_st out)) j (cf_name f) i = fblk fs j (cf_name f) i
+                   \/ exists x, fblk (r_fs (out_st out)) j (cf_name f) i = wbv padz truncf bs f i x
+                                /\ forall l v, nth p (nth l par []) PNone = PEnc v -> x <> vnth v j)).
+  Proof.
+    intros Hp Hf Hg Hbm Hl Hpl Ho PHI CB. cbn zeta.
+    destruct (run_fix_chg_pending o c bm fs par objs Hp Hf Hg Hbm Hl Hpl Ho) as [A _]. split; [exact A|].
+    intros p j f i b Hs.
+    destruct (fl_damaged (get_fl (r_flags (out_st (check_run o c par fs objs (seq 0 bm)))) (j, cf_name f))) eqn:Hd.
+    - left. split; [reflexivity|]. apply (run_fix_damaged_reported o c bm fs par objs Hp Hf Hg Hbm Hl Hpl Ho p j f i b Hs Hd).
+    - right. split; [reflexivity|]. split.
+      + intro Hnc. destruct (run_fix_blk_exact o c bm fs par objs rb Hp Hf Hg Hbm Hl Hpl Ho CB p j f i b Hs Hnc) as [X|X]; [|exact X].
+        cbn zeta in X. rewrite Hd in X. discriminate X.
+      + intro Hc. destruct (run_fix_chg_not_old_partial o c bm fs par objs Hp Hf Hg Hbm Hl Hpl Ho PHI p j f i b Hs Hc) as [X|X]; [|exact X].
+        cbn zeta in X. rewrite Hd in X. discriminate X.
   Qed.
 
   (* mixed arrays: the blocks of the entirely synced stripes *)
